@@ -86,6 +86,7 @@ def handle (j : Json) : R Json := do
     let steps ← asList (asList asModel) (← fld j "steps")
     let sceneEmpty ← asBool (fldD j "scene_empty" (Json.bool true))
     let clashDebug ← asBool (fldD j "clash_debug" (Json.bool false))
+    let clashFlat ← asBool (fldD j "clash_flat" (Json.bool false))
     let debugTree ← asBool (fldD j "debug_tree" (Json.bool false))
     if abs.length != steps.length then throw "abs/steps length mismatch"
     let (snaps, recs) := runDebug n nd prior steps
@@ -95,7 +96,7 @@ def handle (j : Json) : R Json := do
       | some t => obj [("times", ofList ofRat t.times),
                        ("vars", obj (Bk.all.map (fun b => (bkName b, ofVar (t.get b)))))]
     .ok (obj [("snaps", ofList ofSnap snaps), ("snaps_plain", ofList ofSnap plain), ("record", rec'),
-              ("layout", Json.arr #[Json.str (layoutKey false sceneEmpty), Json.str (layoutKey true sceneEmpty),
+              ("layout", Json.arr #[Json.str (layoutKey false sceneEmpty clashFlat), Json.str (layoutKey true sceneEmpty),
                                     Json.str (layoutKey debugTree sceneEmpty clashDebug)]),
               ("debug", ofList ofRec recs),
               ("debug_orig", ofList ofRec (runDebugOrigFrom n nd 0 (prior.emptied n true) none steps)),
